@@ -138,13 +138,40 @@ func (p *C17) Gen(seed uint64, i int, tier string) *scen.Scenario {
 
 // WellFormed: generator invariants the oracle relies on.
 func (p *C17) WellFormed(sc *scen.Scenario) bool {
+	roots := map[int]bool{}
 	for i := range sc.Setup {
 		op := &sc.Setup[i]
 		if op.Op == "register_level" && op.Name == "" {
 			return false
 		}
-		if op.Op == "log" && op.Tok == "" {
-			return false
+		if op.Op == "new_root" {
+			// the routing logger (1: writer 1 / error writer 2, Always) and the gate logger (2: writer 3 for both)
+			want := map[int][3]int{1: {1, 2, model.Always}, 2: {3, 3, model.Warn}}[op.R]
+			if want == [3]int{} || len(op.Opts) != 4 || op.Opts[0].Kind != "writer" || op.Opts[0].W != want[0] || op.Opts[1].Kind != "errwriter" || op.Opts[1].W != want[1] ||
+				op.Opts[2].Kind != "level" || op.Opts[2].Lvl != want[2] || op.Opts[3].Kind != "color" || len(op.Opts[3].B) != 1 || op.Opts[3].B[0] {
+				return false
+			}
+			roots[op.R] = true
+		}
+		if op.Op == "set" && (op.Kind == "level") != (op.L == 2) {
+			return false // levels are set on the gate logger only; the default logger only gets its sim writers
+		}
+		if op.Op == "log" {
+			if op.Tok == "" || !op.Probe {
+				return false
+			}
+			switch op.Kind {
+			case "route":
+				if op.L != 1 || !roots[1] {
+					return false
+				}
+			case "gate":
+				if op.L != 2 || !roots[2] {
+					return false
+				}
+			default:
+				return false
+			}
 		}
 	}
 	return true
